@@ -63,6 +63,14 @@ def _canon(x, depth, seen):
             return ("pd", type(x).__name__, _canon(x.to_dict(), depth + 1, seen))
         except Exception:
             pass
+    if mod in ("itertools", "collections", "array", "decimal", "fractions", "datetime", "uuid", "re", "builtins", "functools", "operator", "random"):
+        # small standard-library objects show their state in their repr (itertools.count(7), deque([...]), ...)
+        try:
+            r = repr(x)
+            if " at 0x" not in r and len(r) < 400:
+                return ("repr", f"{mod}.{type(x).__qualname__}", r)
+        except Exception:
+            pass
     return ("opaque", f"{mod}.{type(x).__qualname__}")
 
 
